@@ -451,6 +451,8 @@ class Table:
             col = col[lo:hi]
         elif arg is None:
             arg = Missing #Missing == None and, unlike None, it can be ordered against the column values
+        elif comparison in ["in","!in"] or (comparison is None and isinstance(arg,collections.abc.Iterable) and not isinstance(arg,str)):
+            arg = [Missing if v is None else v for v in arg] #as above (and None is the open end in the !in ranges below)
 
         if callable(arg):
             return list(compress(count(lo),map(arg,col)))
